@@ -15,6 +15,9 @@ scenarios with a 'config' setting change it between evaluations, on tables of ev
 Every object OWNS the table / cross-section objects it has loaded: they are put into the cache singletons through
 their public API (clear_cache / add_opacity) for the object's own evaluations only, so that building the fresh
 reference never resets what the long-lived object carries.
+Every model holds a CONTRIBUTION LIST (class CList, spec/KTableHistory.tla: "k" the molecular absorption, "c1".."c3"
+continuum contributions -- Rayleigh, flat Mie, CIA -- in the order they were added); scenarios with a 'contribs'
+setting change it between evaluations, both twins always hold the same list.
 Nothing here computes an expected value with the function under test."""
 import math
 import os
@@ -131,6 +134,22 @@ def write_hdf5_xsec(path, name, wn, temps, press_pa, xsec_cm2):
     return fn
 
 
+def write_cia(root):
+    """<root>/cia/H2-H2.db (PickleCIA layout: xsecarr[T, wn]): a smooth band, growing with temperature"""
+    d = os.path.join(root, 'cia')
+    if not os.path.isdir(d):
+        os.makedirs(d)
+        wno = np.linspace(300.0, 5200.0, 50)
+        t = np.array([200.0, 1000.0, 2000.0, 3200.0])
+        x = CIA_SCALE * (0.2 + np.exp(-((wno[None, :] - 2400.0) / 900.0) ** 2)) * (1.0 + t[:, None] / 2000.0)
+        with open(os.path.join(d, 'H2-H2.db'), 'wb') as f:
+            pickle.dump(dict(wno=wno, t=t, xsecarr=x), f)
+    return d
+
+
+CIA_SCALE = 2e-57          # vertical column optical depth of the scenario atmospheres: 0.1 .. 0.5
+
+
 class TableSet:
     """<root>/set<idx>/k: k-tables, <root>/set<idx>/x: the twin numbers as cross-sections (degenerate: the common
     value; generic: the weight-averaged coefficient); container 'pickle' (PickleKTable / PickleOpacity files) or
@@ -141,6 +160,7 @@ class TableSet:
         self.container = container
         self.kdir = os.path.join(root, 'set%d' % idx, 'k')
         self.xdir = os.path.join(root, 'set%d' % idx, 'x')
+        self.ciadir = write_cia(root)
         os.makedirs(self.kdir)
         os.makedirs(self.xdir)
         self.weights = np.array(weights, dtype=float)
@@ -284,6 +304,13 @@ def establish(ts, c, ktabs=None, xops=None):
     return out
 
 
+def cached():
+    """the table objects the cache singletons hold now"""
+    from taurex.cache import OpacityCache
+    from taurex.cache.ktablecache import KTableCache
+    return dict(KTableCache().opacity_dict), dict(OpacityCache().opacity_dict)
+
+
 def install(ktabs, xops):
     """make the cache singletons hold exactly the objects this holder has loaded so far"""
     from taurex.cache import OpacityCache
@@ -296,6 +323,57 @@ def install(ktabs, xops):
     for o in xops.values():
         oc.add_opacity(o)
     return kc, oc
+
+
+# ----------------------------------------------------------------------------
+# the contribution list (spec/KTableHistory.tla: clist)
+# ----------------------------------------------------------------------------
+
+KINDS = ('k', 'c1', 'c2', 'c3')
+
+
+class CList:
+    """kinds: sequence over KINDS with 'k' (AbsorptionContribution: k-tables in one twin, cross-sections in the other)
+    exactly once; 'c1' RayleighContribution, 'c2' FlatMieContribution, 'c3' CIAContribution (H2-H2, pickle file found
+    through the CIA cache), added to the model in this order."""
+
+    def __init__(self, kinds):
+        self.kinds = tuple(kinds)
+        if list(self.kinds).count('k') != 1 or len(set(self.kinds)) != len(self.kinds) or set(self.kinds) - set(KINDS):
+            raise Machinery('not a contribution list of KTableHistory: %r' % (kinds,))
+
+    def __repr__(self):
+        return '+'.join(self.kinds)
+
+    def seq(self):
+        return list(self.kinds)
+
+
+K_ONLY = CList(('k',))
+MIE_MIX = 5e-32          # flat Mie opacity: vertical column optical depth of the scenario atmospheres about 0.5
+
+
+def add_contributions(m, ts, cl):
+    """the contributions of list cl are added to model m in the order of the list (public API)"""
+    from taurex.contributions import AbsorptionContribution, RayleighContribution, FlatMieContribution, CIAContribution
+    for kind in cl.kinds:
+        if kind == 'k':
+            m.add_contribution(AbsorptionContribution())
+        elif kind == 'c1':
+            m.add_contribution(RayleighContribution())
+        elif kind == 'c2':
+            m.add_contribution(FlatMieContribution(flat_mix_ratio=MIE_MIX))
+        else:
+            from taurex.cache import CIACache
+            CIACache().set_cia_path(ts.ciadir)
+            m.add_contribution(CIAContribution(cia_pairs=['H2-H2']))
+
+
+def held_list(m):
+    """the list a built model actually holds, in the spec's alphabet (None: something else)"""
+    names = {'Absorption': 'k', 'Rayleigh': 'c1', 'Mie': 'c2', 'CIA': 'c3'}
+    out = [names.get(c.name) for c in m.contribution_list]
+    return None if None in out else out
 
 
 # ----------------------------------------------------------------------------
@@ -362,7 +440,7 @@ def table_twin_event(ts, k, x, nreq, c):
     dev = max(reldev(k[:, g], x) for g in range(k.shape[1])) if ok_shape else CAP
     return dict(rel='equal', nk=int(k.shape[0]), nx=int(x.shape[0]), nreq=nreq, gdev=0,
                 ng=int(k.shape[1]) if k.ndim == 2 else 0, ngw=ts.ng, dev=dev, slack=0, lo=0, tmin=0, tmax=0, S=S_T,
-                ck=c.triple(), cx=c.triple())
+                ck=c.triple(), cx=c.triple(), lk=['k'], lx=['k'])
 
 
 class TableScenario(history.Scenario):
@@ -428,7 +506,8 @@ class ModelScenario(history.Scenario):
     which the primary long-lived model is evaluated; its long-lived twin is evaluated under the other one),
     'T' (temperature-profile parameter), 'mix' (mixing ratio of the first molecule), 'mix2', 'kset' (directory of
     tables, of either container), 'config' (the evaluation configuration, established through its route for the
-    tables of both kinds: both twins are evaluated under it)."""
+    tables of both kinds: both twins are evaluated under it), 'contribs' (the contribution list, class CList: both
+    models are built again with the contributions added in that order; the loaded tables stay)."""
     NLAYERS = 6
 
     def __init__(self, name, log, kind, settings, values, defaults):
@@ -469,7 +548,7 @@ class ModelScenario(history.Scenario):
             m = DirectImageModel(ngauss=2, **kw)
         else:
             m = TransmissionModel(**kw)
-        m.add_contribution(AbsorptionContribution())
+        add_contributions(m, c['kset'], c.get('contribs', K_ONLY))
         m.build()
         return m
 
@@ -503,6 +582,12 @@ class ModelScenario(history.Scenario):
                 h.ktabs, h.xops = establish(value, h.cfg['config'])
         elif s == 'config':        # the configuration is established through its route (tables loaded again, or set in place)
             h.ktabs, h.xops = establish(h.cfg['kset'], value, h.ktabs, h.xops)
+        elif s == 'contribs':      # another list of contributions: the twin pair is built again; the session's tables stay
+            install(h.ktabs, h.xops)
+            h.m = self._build(h.cfg, h.cfg['mode'])
+            h.t = self._build(h.cfg, OTHER[h.cfg['mode']])
+            h.ktabs, h.xops = cached()
+            install({}, {})
         # 'window' is an argument of model(); 'mode' is the global setting, applied at the evaluation
 
     def observe(self, h):
@@ -510,7 +595,8 @@ class ModelScenario(history.Scenario):
         ts, win, conf = c['kset'], c['window'], c.get('config', BASE)
         h.trail.append('eval')
         vec = h.vector(self.name)
-        cls = '%s:%r:%s' % (self.name, ts, win.label) + ('' if 'config' not in self.settings else ':%r' % conf)
+        cls = '%s:%r:%s' % (self.name, ts, win.label) + ('' if 'config' not in self.settings else ':%r' % conf) \
+            + ('' if 'contribs' not in self.settings else ':%r' % c['contribs'])
         km, xm = (h.m, h.t) if c['mode'] == 'ktables' else (h.t, h.m)
         kc, oc = install(h.ktabs, h.xops)
         grid = None if win.grid is None else np.array(win.grid)
@@ -528,20 +614,27 @@ class ModelScenario(history.Scenario):
             raise
         self.evals += 1
         detail = 'mode of the primary model %s, configuration %r' % (c['mode'], conf)
-        out = model_twin(self.log, self.kind, self.NLAYERS, ts, h.ktabs, rk, rx, xm, conf, cls, detail, vec)
+        out = model_twin(self.log, self.kind, self.NLAYERS, ts, h.ktabs, rk, rx, xm, conf, cls, detail, vec, km=km,
+                         contribs=c.get('contribs', K_ONLY))
         self.clip.setdefault(ts.idx, {})[win.label] = len(out['grid_k'])
         return out
 
 
-def model_twin(log, kind, nlayers, ts, ktabs, rk, rx, xm, conf, cls, detail, vec, clause=None):
+def model_twin(log, kind, nlayers, ts, ktabs, rk, rx, xm, conf, cls, detail, vec, clause=None, km=None, contribs=K_ONLY):
     """One evaluation of a k-table model (rk) and of its cross-section twin (rx = the results of model(); xm: the
-    cross-section model) under configuration `conf`: logs the `twin` event (equality for a degenerate table, unit
-    interval and Jensen bound for a generic table in transmission) and returns what was observed."""
+    cross-section model, km: the k-table model) under configuration `conf`, both holding the contribution list
+    `contribs`: logs the `twin` event (equality for a degenerate table, unit interval and Jensen bound for a generic
+    table in transmission) and returns what was observed."""
     gk, yk, tk = (np.array(v, dtype=float) for v in rk[:3])
     gx, yx, tx = (np.array(v, dtype=float) for v in rx[:3])
+    # the lists the two built models hold (build() may reorder: a stable sort on Contribution.order, equal for these)
+    lk = contribs.seq() if km is None else held_list(km)
+    lx = held_list(xm)
+    if lk != contribs.seq() or lx != contribs.seq():
+        raise Machinery('the models do not hold the contribution list %r: %r / %r' % (contribs, lk, lx))
     ev = dict(nk=len(gk), nx=len(gx), nreq=0, gdev=absdev(gk, gx) if gk.shape == gx.shape else CAP,
               ng=ts.ng, ngw=int(len(np.atleast_1d(ktabs[sorted(ts.grids)[0]].weights))),
-              dev=0, slack=0, lo=0, tmin=0, tmax=0, S=S_T, ck=conf.triple(), cx=conf.triple())
+              dev=0, slack=0, lo=0, tmin=0, tmax=0, S=S_T, ck=conf.triple(), cx=conf.triple(), lk=lk, lx=lx)
     if clause:
         ev['_clause'] = clause
     ev['gdev'] = min(CAP, int(math.ceil(ev['gdev'] / 1e3)))          # units of 1e-9 cm-1
@@ -553,9 +646,8 @@ def model_twin(log, kind, nlayers, ts, ktabs, rk, rx, xm, conf, cls, detail, vec
         else:
             ev['dev'] = reldev(yk, yx)
             # licensed: the cross-section emission branch zeroes transmittances once the optical depth is >= 10 at
-            # EVERY wavenumber of the evaluated grid; the k-table branch does not
-            col = np.sum(np.asarray(xm.contribution_list[0].sigma_xsec) *
-                         (np.asarray(xm.densityProfile) * np.asarray(xm.deltaz))[:, None], axis=0)
+            # EVERY wavenumber of the evaluated grid (all contributions together); the k-table branch does not
+            col = column_depth(xm)
             if col.min() >= 10.0 - 1e-6:
                 tt = np.asarray(xm.temperatureProfile, dtype=float)
                 ratio = max(fx.planck_b(w, tt.max()) / fx.planck_b(w, tt.min()) for w in gx)
@@ -564,18 +656,42 @@ def model_twin(log, kind, nlayers, ts, ktabs, rk, rx, xm, conf, cls, detail, vec
         log.add(ev, cls, detail, vec)
     elif kind == 'transmission' and tk.shape == tx.shape and tk.size:
         ev['rel'] = 'jensen'
-        ev['lo'] = int(max(-CAP, min(CAP, math.floor(float(np.min(tk - tx)) * S_T))))
+        diff = tk - tx
+        if len(lx) > 1:
+            # licensed: path_integral stops adding contributions to a path whose optical depth exceeds 10 at every
+            # wavenumber; the cross-section twin (larger optical depth) stops no later than the k-table twin, so a
+            # transmittance of the twin below exp(-10) is no lower bound for the k-table one (which stays in [0, 1])
+            diff = np.where(tx < EXP_M10, np.maximum(diff, 0.0), diff)
+        ev['lo'] = int(max(-CAP, min(CAP, math.floor(float(np.min(diff)) * S_T))))
         ev['tmin'] = int(max(-CAP, min(CAP, math.floor(float(tk.min()) * S_T))))
         ev['tmax'] = int(max(-CAP, min(CAP, math.ceil(float(tk.max()) * S_T))))
         log.add(ev, cls, detail + '; min(Tk - Tx) = %r' % float(np.min(tk - tx)), vec)
     return dict(grid_k=gk, k=yk, tau_k=tk, grid_x=gx, x=yx, tau_x=tx)
 
 
+def column_depth(m):
+    """vertical optical depth of the whole column per wavenumber of the grid a cross-section model was last evaluated
+    on, all its contributions together (CIA: density squared)"""
+    rho, dz = np.asarray(m.densityProfile, dtype=float), np.asarray(m.deltaz, dtype=float)
+    col = 0.0
+    for c in m.contribution_list:
+        w = rho * rho * dz if c.name == 'CIA' else rho * dz
+        col = col + np.sum(np.asarray(c.sigma_xsec, dtype=float) * w[:, None], axis=0)
+    return col
+
+
 # ----------------------------------------------------------------------------
 # the scenarios
 # ----------------------------------------------------------------------------
 
-def scenarios(ctx, root, log, thorough=False):
+def pick(lists, pred, what):
+    for v in lists:
+        if pred(v):
+            return CList(v['list'])
+    raise Machinery('the exported alphabet of contribution lists has no list with %s' % what)
+
+
+def scenarios(ctx, root, log, thorough=False, lists=None):
     un = uniform_native()
     ge = geometric_native()
     coarse = uniform_native(n=21, start=650.0, step=190.0)
@@ -622,7 +738,22 @@ def scenarios(ctx, root, log, thorough=False):
            M('transmission:config', log, 'transmission', ['config', 'kset', 'T'], dict(V, config=CT, kset=[A, H], T=[1300.0, 900.0, 2600.0]),
              dict(dflt, window=Wlin[0])),
            M('emission:config', log, 'emission', ['config', 'mode', 'T'], dict(V, config=CE, T=Te), dict(dflt, kset=H, T=1500.0, window=Wlin[0]))]
+    # the contribution list changes between evaluations (lists of the alphabet exported by TLC): a continuum term
+    # before / after the molecular one, two or more of them, in both families
+    if lists:
+        LT = [pick(lists, lambda v: v['ncont'] == 1 and not v['kfirst'], 'one continuum term before k'),
+              pick(lists, lambda v: v['ncont'] == 2 and not v['kfirst'] and not v['klast'], 'k between two continuum terms'),
+              pick(lists, lambda v: v['ncont'] == 2 and v['kfirst'], 'two continuum terms after k')]
+        LE = [pick(lists, lambda v: v['ncont'] == 2 and v['kfirst'], 'two continuum terms after k'),
+              pick(lists, lambda v: v['ncont'] == 2 and v['klast'], 'two continuum terms before k'),
+              pick(lists, lambda v: v['ncont'] >= 3, 'three continuum terms')]
+        sc += [M('transmission:contributions', log, 'transmission', ['contribs', 'mode', 'window'], dict(V, contribs=LT, window=Wlin), dflt),
+               M('emission:contributions', log, 'emission', ['contribs', 'mode', 'T'], dict(V, contribs=LE, T=Te),
+                 dict(dflt, T=1500.0, window=Wfull[1]))]
     if thorough:
+        if lists:
+            sc += [M('direct:contributions', log, 'direct', ['contribs', 'kset', 'mix'], dict(V, contribs=LE[::-1], kset=[A, H, C]),
+                     dict(dflt, T=1500.0, window=Wlin[0]))]
         HD = TableSet(root, 6, {'H2O': un, 'CH4': coarse}, W4, 0.0, container='hdf5')
         sc += [TableScenario('table:config-hdf5-P', log, HD, 'CH4', [between(coarse, 2, 6)], Tc, Pc, configs=CT, vary=('config', 'T', 'P')),
                M('direct:config', log, 'direct', ['config', 'T', 'kset'], dict(V, config=CH, kset=[H, A], T=Te), dict(dflt, T=1500.0, window=Wlin[0]))]
@@ -632,6 +763,113 @@ def scenarios(ctx, root, log, thorough=False):
                M('transmission:mix-T', log, 'transmission', ['mix', 'T', 'window'], dict(V, window=Wfull, T=Tt), dflt),
                M('emission:mode-tables', log, 'emission', ['mode', 'kset', 'window'], dict(V, window=Wlin), dict(dflt, T=1500.0))]
     return sc
+
+
+# ----------------------------------------------------------------------------
+# binding A of the contribution-list dimension: every exported list, both families
+# ----------------------------------------------------------------------------
+
+LIST_CLAUSE = 'twin_under_contributions'
+
+
+class ListSweep:
+    """Every list of the alphabet exported by TLC (EX_KTableHistory_cfg.cfg, tag LST) is realised in a twin pair of
+    models of every family -- a degenerate table (equality) and a generic one (transmission: unit interval and
+    Jensen bound against the weight-averaged coefficient) -- and logged as a `twin` event."""
+
+    def __init__(self, ctx, root, log, thorough):
+        self.ctx, self.log, self.thorough = ctx, log, thorough
+        un = uniform_native()
+        self.sets = [TableSet(root, 20, {'H2O': un}, [0.05, 0.15, 0.3, 0.5], 0.0),
+                     TableSet(root, 21, {'H2O': un}, [0.4, 0.3, 0.2, 0.1], 2.0)]
+        if thorough:
+            self.sets.append(TableSet(root, 22, {'H2O': un}, [0.25, 0.25, 0.5], 0.0, container='hdf5'))
+        self.kinds = ['transmission', 'emission'] + (['direct'] if thorough else [])
+        self.win = linwin(1030.0, 3970.0, 13)
+        self.seen = set()         # (kind, set index, list id)
+        self.depth = {}           # (kind, term) -> (smallest peak, largest floor) of its vertical column optical depth
+        self.done = 0
+
+    def scenario(self, kind, ts):
+        return ModelScenario('lists:%s' % kind, self.log, kind, ['contribs'], dict(contribs=[K_ONLY]),
+                             dict(window=self.win, mode='ktables', T=1300.0 if kind == 'transmission' else 1500.0,
+                                  mix=2e-4, mix2=5e-5, kset=ts, contribs=K_ONLY))
+
+    def one(self, v, kind, si):
+        ts = self.sets[si]
+        cl = CList(v['list'])
+        vec = dict(v, contribs_sweep=True, kind=kind, set=si)
+        cls = 'lists:%s:%r:%r' % (kind, ts, cl)
+        sc = self.scenario(kind, ts)
+        c = sc._cfg([cl])
+        try:
+            install({}, {})
+            km, xm = sc._build(c, 'ktables'), sc._build(c, 'xsec')
+            try:
+                use_paths(ts, 'ktables')
+                rk = km.model(wngrid=np.array(self.win.grid))
+                ktabs = cached()[0]
+                use_paths(ts, 'xsec')
+                rx = xm.model(wngrid=np.array(self.win.grid))
+            finally:
+                install({}, {})
+        except Exception as ex:
+            self.log.code_raised(ex, cls, vec)
+            return
+        out = model_twin(self.log, kind, sc.NLAYERS, ts, ktabs, rk, rx, xm, BASE, cls, 'contribution list %r' % cl, vec,
+                         clause=LIST_CLAUSE, km=km, contribs=cl)
+        rho, dz = np.asarray(xm.densityProfile, dtype=float), np.asarray(xm.deltaz, dtype=float)
+        for kd, cn in zip(held_list(xm), xm.contribution_list):          # vertical column optical depth per term
+            w = rho * rho * dz if kd == 'c3' else rho * dz
+            col = np.sum(np.asarray(cn.sigma_xsec, dtype=float) * w[:, None], axis=0)
+            lo, hi = self.depth.get((kind, kd), (np.inf, 0.0))
+            self.depth[(kind, kd)] = (min(lo, float(col.max())), max(hi, float(col.min())))
+        self.seen.add((kind, si, v['id']))
+        self.done += 1
+
+    def run(self, lists):
+        for v in lists:
+            if not (v['twin'] is True and v['orderfree'] is True):
+                raise Machinery('unexpected content of an exported contribution list: %r' % v)
+            for kind in self.kinds:
+                for si in range(len(self.sets)):
+                    self.one(v, kind, si)
+
+    def self_check(self, lists):
+        """the alphabet is realised and not vacuous: a continuum term before the molecular one, one after it, two or
+        more of them; every continuum term enters the spectrum of the cross-section twin"""
+        if not (any(not v['kfirst'] for v in lists) and any(not v['klast'] for v in lists) and any(v['ncont'] >= 2 for v in lists)
+                and any(v['ncont'] >= 2 and not v['kfirst'] for v in lists) and any(v['ncont'] >= 2 and not v['klast'] for v in lists)):
+            raise Machinery('the exported alphabet of contribution lists lacks a position class: %r' % [v['list'] for v in lists])
+        for kind in self.kinds:
+            for si in range(len(self.sets)):
+                for v in lists:
+                    if (kind, si, v['id']) not in self.seen:
+                        raise Machinery('contribution list %r not realised for %s / table set %d' % (v['list'], kind, si))
+            for kd in sorted({k for v in lists for k in v['list']}):
+                lo, hi = self.depth.get((kind, kd), (0.0, np.inf))
+                if kd != 'k' and not (lo >= 1e-5 and hi < 5.0):
+                    raise Machinery('%s: the column optical depth of continuum term %s is %r .. %r: it does not enter the '
+                                    'spectrum, or saturates it (vacuous)' % (kind, kd, lo, hi))
+
+
+def run_lists(ctx, lists, root, log, thorough):
+    sw = ListSweep(ctx, root, log, thorough)
+    try:
+        sw.run(lists)
+    finally:
+        install({}, {})
+    return sw
+
+
+def replay_lists(ctx, vecs, root, log):
+    sw = ListSweep(ctx, root, log, True)
+    try:
+        for v in vecs:
+            sw.one(v, v['kind'], v['set'])
+    finally:
+        install({}, {})
+    return sw
 
 
 def self_check(scs, log):
